@@ -49,7 +49,27 @@ def caps_items(count, isz, full):
 # generation (phase 1: abstract cases with "enc" = spec command that builds the input)
 # ---------------------------------------------------------------------------------------------
 
-def generate(rng, quick):
+C12_W32 = {0, 1, 3, 8, 9, 16, 23, 24, 25, 26, 31, 32}
+C12_W64 = {0, 1, 8, 24, 28, 29, 32, 33, 56, 57, 63, 64}
+
+
+def keep_c12(c, quick):
+    """C12 thins the lattice to the boundary points (sanitised runs are several times slower)"""
+    m = c.get("meta", {})
+    if m.get("pattern") in ("zeros", "alternating") and c["fn"] != "read_bitpacked1":
+        return False
+    if c["fn"] == "delta_unpack":
+        return m.get("w", m["max_width"]) in C12_W64 or m["pattern"] == "mixed"
+    if c["fn"] == "read_rle":
+        return c["w"] in C12_W32 and (c["header"] >> 1) in (0, 1, 8, 9) and (not quick or c["cap"] % 4 == 0)
+    if "w" in c and c["w"] not in C12_W32:
+        return False
+    if quick and c["fn"] in ("read_bitpacked", "read_hybrid") and c["cap"] % c["isz"]:
+        return False
+    return True
+
+
+def generate(rng, quick, c12=False):
     cases = []
     N = 40 if quick else 120
     groups = [0, 1, 2, 3, 5] if quick else [0, 1, 2, 3, 4, 5, 8, 15]
@@ -153,6 +173,11 @@ def generate(rng, quick):
                               "stream": "main", "meta": {"pattern": pname}})
     for gen in EXTRA_GENERATORS:
         cases += gen(rng, quick)
+    if c12:
+        cases = [c for c in cases if keep_c12(c, quick)]
+        for c in cases:
+            if "enc" in c:
+                c["trail"] = False          # exactly-sized input allocations: the red zone starts right behind the run
     # ---- phase 2: inputs from the spec encoders ---------------------------------------------
     idx = [i for i, c in enumerate(cases) if "enc" in c]
     outs = L.pq_batch([tuple(cases[i]["enc"]) for i in idx])
@@ -386,14 +411,14 @@ def short(c):
     return d
 
 
-def check_cases(ctx, pid, cases, workdir, sanitize):
+def check_cases(ctx, pid, cases, workdir, sanitize, memory_only=False):
     guard = 0 if sanitize else L.GUARD
     real = L.run_real([worker_case(c) for c in cases], workdir, sanitize=sanitize, nproc=4 if ctx.quick() else 8)
     mouts = L.pq_batch([FNS[c["fn"]]["model"](c) for c in cases], nproc=4)
     souts = L.pq_batch([FNS[c["fn"]]["spec"](c) for c in cases], nproc=4)
     souts = second_phase(cases, real, souts)
     for c, r, mo, so in zip(cases, real, mouts, souts):
-        judge(ctx, pid, c, r, mo, so, guard, sanitize)
+        judge(ctx, pid, c, r, mo, so, guard, sanitize, memory_only=memory_only)
 
 
 def second_phase(cases, real, souts):
@@ -416,7 +441,7 @@ def second_phase(cases, real, souts):
     return souts
 
 
-def judge(ctx, pid, c, r, mo, so, guard, sanitize, verbose=False):
+def judge(ctx, pid, c, r, mo, so, guard, sanitize, verbose=False, memory_only=False):
     """returns True when the property fails on this case"""
     f = FNS[c["fn"]]
     fn = c["fn"]
@@ -447,9 +472,11 @@ def judge(ctx, pid, c, r, mo, so, guard, sanitize, verbose=False):
         ctx.correspondence("%s ~ impl model (output buffer incl. guard, cursors)" % fn, short(c), mv, iv)
     if not model_ok:
         # outside the region where the compiled code has a defined meaning: must be a listed finding
+        ctx.count("model verdict unsafe: what the real run showed", r[0] if crashed else "no report")
         failed |= ctx.fail(dict(cls, kind="model-unsafe", verdict=mtag), short(c),
-                           "the model of the compiled code reports %s on this well-formed input" % mtag.upper())
-    if not crashed:
+                           "the model of the compiled code reports %s on this input%s" % (
+                               mtag.upper(), (" and the real run ended with %r" % (r[:3],)) if crashed else ""))
+    if not crashed and not memory_only:
         for kind, detail in f["oracle"](c, r, so, guard):
             failed |= ctx.fail(dict(cls, kind=kind, verdict=mtag or "ok"), short(c), detail)
             if verbose:
@@ -465,7 +492,7 @@ def lattice_summary(cases):
     return out
 
 
-def replay_case(case, sanitize):
+def replay_case(case, sanitize, memory_only=False):
     """re-execute one recorded case on the real code (subprocess) and on the models; 1 if the property still fails"""
     import shutil
     import tempfile
@@ -492,7 +519,7 @@ def replay_case(case, sanitize):
             def fail(self, cls, case, detail):
                 print("  PROPERTY FAILS %s: %s" % (json.dumps(cls), detail))
                 return True
-        bad = judge(Ctx0(), "replay", c, r, mo, so, 0 if sanitize else L.GUARD, sanitize)
+        bad = judge(Ctx0(), "replay", c, r, mo, so, 0 if sanitize else L.GUARD, sanitize, memory_only=memory_only)
         print("=> property %s on this case" % ("FAILS" if bad else "holds"))
         return 1 if bad else 0
     finally:
@@ -568,7 +595,7 @@ def gen_delta(rng, quick):
                         cases.append({"fn": "delta_unpack", "longval": longval, "cap": count * isz,
                                       "enc": ["delta_enc", bits, bs, mpb, vals], "trail": True,
                                       "stream": "confirm" if mw >= 29 else "main",
-                                      "meta": {"count": count, "bs": bs, "mpb": mpb, "max_width": mw, "pattern": pat,
+                                      "meta": {"count": count, "bs": bs, "mpb": mpb, "max_width": mw, "pattern": pat, "w": w,
                                                "cap_class": "exact", "vals": vals}})
             # counts around the block structure, mixed widths per miniblock, all capacities classes
             for count in ([0, 1, 2, 5, vpm, vpm + 1, bs, bs + 1, bs + 2] if quick else list(range(0, 12)) + [vpm - 1, vpm, vpm + 1, vpm + 2, 2 * vpm + 1, bs - 1, bs, bs + 1, bs + 2, 2 * bs, 2 * bs + 1, 3 * bs + 5]):
@@ -621,7 +648,7 @@ def _du_cls(c):
 
 def _du_safe(c):
     m = c["meta"]
-    return m["max_width"] <= 28 and m["count"] > 0 and m["cap_class"] in ("exact", "odd", "long")
+    return m["max_width"] <= 28 and m["count"] >= 1 and (m["count"] - 1) % m["bs"] != 0 and m["cap_class"] in ("exact", "odd", "long")
 
 
 # ---- encoders --------------------------------------------------------------------------------
